@@ -4,10 +4,16 @@ Part of C04 (markets clear, supply fully allocated) and C01 (the market group's 
 lead integrates it with
 
     import gen_market
-    ...
-    gen_market.extra(ctx, out)          # inside run(ctx), after out.proof is set
-    ...
-    if r.get('kind') == 'market': return gen_market.replay(obj)      # inside replay(path)
+    ...                                 # in run(ctx), where out.proof is set:
+    out.proof = common.merge_proofs([common.proof_status(FAMILY, PROPFILE)] +
+                                    [common.proof_status(f, p) for f, p in gen_market.PROOFS])
+    ...                                 # at the end of run(ctx), just before `return out`
+    gen_market.extra(ctx, out)          # correspondence + oracle; appends to out.* (also trusted_base/assumptions)
+    ...                                 # at the top of replay(path):
+    obj = json.load(open(path))
+    if (obj.get('replay') or {}).get('kind') == 'market':
+        return gen_market.replay(obj)
+(gen_market.merge_proof(out) does the same merge in place for a harness without common.merge_proofs.)
 
 Proof: coq/GenMarket/PropMarket.v — theorems over ALL zones / markets / supplier lists / valuations about
 the Gallina model coq/GenMarket/Market.v of Market._SearchSupplier, _GenerateTermsLowLevel,
@@ -370,8 +376,6 @@ def oracle(c, b, before, after, err, info):
             fail('market:search-supplier', 'market %s has exactly one candidate supplier %s but raised LogicError'
                  % (m.FullCode, info['candidates'][0].FullCode))
     if err is not None:
-        sups_all = list(info['others']) + ([m.ResidualSupply] if m.ResidualSupply is not None else [])
-        foreign = [s for s in sups_all if s.CurrencyZone.ID != m.CurrencyZone.ID]
         return fails, False
     sup_entries = list(m.OtherSuppliers)          # after the call: others followed by the residual
     sups = [s for s, _ in sup_entries]
@@ -524,6 +528,42 @@ def check_snapshot_ok(before, after):
 # ----------------------------------------------------------------------------------------------
 # entry points
 
+TRUSTED = [
+    'hand-written model coq/GenMarket/Market.v of Market._SearchSupplier/_GenerateTermsLowLevel/_GenerateMultiSupply/'
+    '_GenerateEquations on the state of coq/Gen/Zone.v (Sector.AddVariable/AddTermToEquation/AddCashFlow) and coq/Gen/Fx.v '
+    '(_SendMoney/_ReceiveMoney), tied to the code by the per-variable correspondence of harness/gen_market.py; the three '
+    'right-hand sides the market writes as text (DEM_<code>, SUP_<code>, residual SUP_<full code>) are compared as parsed '
+    '(coefficient, name) lists (harness parse_sum), all other equations as (blob text, term list)']
+ASSUMPTIONS = [
+    'market model: each supplier is passed to AddSupplier once and is not the market itself; no supplier full code equals '
+    'the market short code; variable names and full codes are free of "__" where the Python would raise ValueError; a '
+    'supplier supply variable that already had a non-zero right-hand side keeps it as a summand (theorem '
+    'Market_supplier_amount states the general form); Term parsing (character level) is the subject of coq/Eqn, terms '
+    'here are parsed name factors']
+
+
+def merge_proof(out):
+    """Add the obligations of coq/GenMarket/PropMarket.v to out.proof (a dict from common.proof_status)."""
+    for fam, pf in PROOFS:
+        st = common.proof_status(fam, pf)
+        if out.proof is None:
+            out.proof = st
+            continue
+        p = out.proof
+        p['theorems'] = list(p.get('theorems', [])) + list(st.get('theorems', []))
+        a = dict(p.get('assumptions') or {})
+        a.update(st.get('assumptions') or {})
+        p['assumptions'] = a
+        p['forbidden'] = list(p.get('forbidden', [])) + list(st.get('forbidden', []))
+        p['broken'] = list(p.get('broken', [])) + ['%s/%s: %s' % (fam, pf, b) for b in st.get('broken', [])]
+        p['ok'] = bool(p.get('ok')) and bool(st.get('ok'))
+        if st.get('log'):
+            p['log'] = (p.get('log') or '') + '\n' + st['log']
+        p['propfile'] = '%s + %s/%s' % (p.get('propfile'), fam, pf)
+        p['build_wall_s'] = round(p.get('build_wall_s', 0) + st.get('build_wall_s', 0), 2)
+    return out
+
+
 def extra(ctx, out, quick_n=350, thorough_n=5000):
     n = ctx.scale(quick_n, thorough_n)
     cases, metas = [], []
@@ -568,6 +608,8 @@ def extra(ctx, out, quick_n=350, thorough_n=5000):
     out.evaluations += len(cases)
     out.nontrivial += len(distinct)
     out.extra['market_model'] = dist
+    out.trusted_base = list(out.trusted_base or []) + TRUSTED
+    out.assumptions = list(out.assumptions or []) + ASSUMPTIONS
     if metas:
         out.samples.append({'market_case': metas[0]})
     return out
